@@ -178,8 +178,14 @@ def real_pauto(req):
 def real_pautoh(req):
     """the wrapper decorated with modifiers.posoargs(*P) / kwoargs(*W) (one translator with both selections)"""
     p = req[1]
-    # one translator carrying both selections (what stacking kwoargs and posoargs merges into)
-    decs = ['@functools.partial(modifiers._PokTranslator, posoargs=%r, kwoargs=%r)' % (tuple(p['hintP']), tuple(p['hintW']))]
+    P_, W_ = tuple(p['hintP']), tuple(p['hintW'])
+    ps_ = list(p['params'])
+    if P_ == tuple(ps_[:len(P_)]) and not set(P_) & set(W_) and all(w in ps_ for w in W_) and len(set(W_)) == len(W_):
+        # each selection is admissible on its own: stack the public decorators, one per name (they merge into one translator)
+        decs = ['@modifiers.kwoargs(%r)' % w for w in W_] + (['@modifiers.posoargs(%s)' % ', '.join(repr(x) for x in P_)] if P_ else [])
+    else:
+        # one translator carrying both selections
+        decs = ['@functools.partial(modifiers._PokTranslator, posoargs=%r, kwoargs=%r)' % (P_, W_)]
     try:
         mod, fname = load_prog(p, decorators=tuple(decs))
     except ValueError as e:
@@ -490,6 +496,54 @@ def rt_nested_taint(req):
 RT['nested_taint'] = rt_nested_taint
 
 
+_RELOAD_A = '''def old_backend(x, y=None): return (x, y)
+def new_backend(x, *, level=0, verbose=False): return (x, level, verbose)
+def run(*args, **kwargs):
+    return old_backend(*args, **kwargs)
+'''
+_RELOAD_B = _RELOAD_A.replace('return old_backend(*args', 'return new_backend(*args')
+
+
+def rt_source_changed(req):
+    """a module is edited and executed again under the SAME file name: the function of the same name on the same line now
+    forwards elsewhere; retrieval must read the new source (as inspect.getsource does), not remember the old one"""
+    import linecache, types
+    fname = '<verif-reload-%d>' % id(req)
+    problems = []
+    try:
+        seen = []
+        for text in (_RELOAD_A, _RELOAD_B, _RELOAD_A):
+            linecache.cache[fname] = (len(text), None, text.splitlines(True), fname)
+            mod = types.ModuleType('verif_reload')
+            mod.__file__ = fname
+            exec(compile(text, fname, 'exec'), mod.__dict__)
+            with warnings.catch_warnings():
+                warnings.simplefilter('ignore')
+                sg = sigtools.signature(mod.run)
+                want = sigtools.signature(mod.old_backend if 'old_backend(*args' in text else mod.new_backend)
+            seen.append(str(sg))
+            if str(sg) != str(want):
+                problems.append('stale-source: after the module text changed (same file name, line and function name), sigtools.signature(run) '
+                                '= %s; the function now forwards to a callee with signature %s (sequence so far: %s)' % (sg, want, seen))
+                break
+            for a, k in (((1,), {}), ((1, 2), {}), ((1,), {'y': 2}), ((1,), {'level': 1}), ((), {})):
+                try:
+                    sg.bind(*a, **k)
+                except TypeError:
+                    continue
+                try:
+                    mod.run(*a, **k)
+                except TypeError as e:
+                    problems.append('stale-source: %s accepts %s %s but the call raises TypeError: %s' % (sg, a, k, e))
+                    break
+    finally:
+        linecache.cache.pop(fname, None)
+    return ('ok', tuple(problems[:1]), 'probed')
+
+
+RT['source_changed'] = rt_source_changed
+
+
 # ----------------------------------------------------------------------------- C07: retrieval over the corpus
 import signal  # noqa: E402
 
@@ -717,6 +771,12 @@ def wrapped(a, b): pass
 @deco
 def wrapped2(a, b): pass
 def nothing(): return 0
+try: import no_such_module_for_sure
+except ImportError: fallback_lam = lambda *args, **kwargs: g(*args, **kwargs)
+if g: ifline_lam = lambda *args, **kwargs: g(*args, **kwargs)
+else: elseline_lam = None
+for _ in (): pass
+else: forelse_lam = lambda x, *args, **kwargs: g(*args, **kwargs)
 NOT_ITERABLE = None
 def star_of_global(**kw): return g(*NOT_ITERABLE, **kw)
 def dstar_of_global(*a): return g(*a, **NOT_ITERABLE)
@@ -773,7 +833,7 @@ OBJECTS = [lam, lam2, coro, gen, agen, walrus, matcher, comp, dcomp, starred, gl
            functools.partial(onearg, g, 1, 2, 3), functools.partial(functools.partial(g, 1), 2, 3),
            functools.partial(kwstar, 0, 1, 2), functools.partial(kwstar, 0, a=1),
            recur_n, recur_kw, recur_lit, cycle_a, cycle_b, Rec().walk, Rec.walk, functools.partial(recur_n, 3),
-           star_of_global, dstar_of_global, RaisingProp().viaprop, RaisingProp().viaprop2, KwOnlyMethod().m, KwOnlyMethod.m,
+           fallback_lam, ifline_lam, forelse_lam, star_of_global, dstar_of_global, RaisingProp().viaprop, RaisingProp().viaprop2, KwOnlyMethod().m, KwOnlyMethod.m,
            UnhashableCallable(), CallableClass, CallableClass(1), CallableClass2, CallableClass2(),
            functools.partial(starry, kwargs=1), functools.partial(starry, args=1), DeclaredMethod().outer, DeclaredMethod.outer]
 '''
